@@ -1,0 +1,60 @@
+//go:build verif
+
+package engine
+
+import (
+	"slices"
+	"sync"
+
+	"github.com/nspcc-dev/neofs-node/pkg/local_object_storage/shard"
+)
+
+var (
+	verifOrderMtx      sync.RWMutex
+	verifOrderSorted   []string
+	verifOrderUnsorted []string
+)
+
+// VerifSetShardOrder fixes the order in which the engine visits its shards
+// (verification harness only): sorted is used wherever the engine sorts shards
+// by HRW weight, unsorted wherever it iterates the shard map. A nil list keeps
+// the computed order.
+func VerifSetShardOrder(sorted, unsorted []string) {
+	verifOrderMtx.Lock()
+	verifOrderSorted = slices.Clone(sorted)
+	verifOrderUnsorted = slices.Clone(unsorted)
+	verifOrderMtx.Unlock()
+}
+
+func verifReorder(shards []shardWrapper, sorted bool) {
+	verifOrderMtx.RLock()
+	order := verifOrderUnsorted
+	if sorted {
+		order = verifOrderSorted
+	}
+	verifOrderMtx.RUnlock()
+	if order == nil {
+		return
+	}
+	pos := func(s shardWrapper) int {
+		if i := slices.Index(order, s.ID().String()); i >= 0 {
+			return i
+		}
+		return len(order)
+	}
+	slices.SortStableFunc(shards, func(a, b shardWrapper) int { return pos(a) - pos(b) })
+}
+
+// VerifShard returns the shard with the given identifier (verification harness only).
+func (e *StorageEngine) VerifShard(id string) *shard.Shard {
+	return e.getShard(id).Shard
+}
+
+// VerifErrorCount returns the error counter of the shard (verification harness only).
+func (e *StorageEngine) VerifErrorCount(id string) uint32 {
+	sh := e.getShard(id)
+	if sh.errorCount == nil {
+		return 0
+	}
+	return sh.errorCount.Load()
+}
